@@ -78,7 +78,8 @@ CHECKS["C16"] = dict(
     rule="seeded tuples (epoch, valid, preferred≤valid, route lifetime, deprecated) each observed along a sorted sequence of ≥15 clock readings placed 1 ns before, at and 1 ns after every deadline, "
          "before the epoch, at it and 200 years later, with repeated readings; non-trivial = deprecated tuple whose sequence showed both a positive and a zero lifetime; distinct = the tuple",
     assumptions=["the clock is injected through TimeNow; that Parse hands the epoch to the plugins is checked by C02; that main passes time.Now() is covered by tier R"],
-    parts=[dict(name="countdown", pkg="internal/plugin", test="TestVerifC16", shards=S8)],
+    parts=[dict(name="countdown", pkg="internal/plugin", test="TestVerifC16", shards=S8),
+           dict(name="prepare", pkg="internal/plugin", test="TestVerifC16Prepare", shards={"quick": 2, "thorough": 2})],
 )
 
 CHECKS["C12"] = dict(
@@ -140,7 +141,7 @@ CHECKS["C08"] = dict(
          "solicitation in the same instant as the request — × terminate/reload × unicast_only (1/8); the class is confirmed from the trace; non-trivial = trace class other than idle; distinct = scenario id (seeded)",
     assumptions=VT + ["configurations with default_lifetime 0 or forwarding off are excluded from the final-RA clauses (every RA has lifetime 0 there)"],
     parts=vparts("TestVerifC08"),
-    require_counters={"quick": {"class_in-flight": 20, "class_pending": 20, "class_concurrent-rs": 10}, "thorough": {"class_in-flight": 200}},
+    require_counters={"quick": {"class_in-flight": 20, "class_pending": 20, "class_concurrent-rs": 10, "class_spacing-wait": 10}, "thorough": {"class_in-flight": 200}},
 )
 CHECKS["C09"] = dict(
     level="exploration",
